@@ -566,6 +566,10 @@ class Sym:
                     for p_ in f[2][0][1].split('.'):
                         r_ = ('attr', r_, p_)
                     return r_                                                                              # attrgetter("a.b")(o) is o.a.b
+            if f[0] == 'ext' and f[1] in ('typing.cast', 'typing_extensions.cast') and len(args) == 2 and not kws:
+                return args[1]                                                                             # typing.cast(T, x) is x
+            if f[0] == 'ext' and f[1] in ('typing.cast', 'typing_extensions.cast') and len(args) == 1 and [k_ for k_, _ in kws] == ['val']:
+                return kws[0][1]
             if f[0] == 'call' and f[1][0] in ('ext', 'g', 'b') and term_name(f[1]).split('.')[-1] == 'itemgetter' and len(f[2]) == 1 and not f[3] and len(args) == 1 and not kws:
                 return ('sub', args[0], f[2][0])                                                           # itemgetter(k)(o) is o[k]
             if f[0] == 'call' and term_name(f[1]).split('.')[-1] == 'partial' and f[1][0] in ('ext', 'g', 'b') and f[2] and not any(a_[0] == 'star' for a_ in f[2]) and not any(k_ == '**' for k_, _ in f[3]):
@@ -935,6 +939,20 @@ class Sym:
             r = m.find_method(dm, dc, leaf.env[f.id][2]) if dc is not None else None
             if r and not m.is_property(r[2]) and not any(isinstance(d, ast.Name) and d.id in ('staticmethod', 'classmethod') for d in r[2].decorator_list):
                 tgt = (r[0], r[1], r[2], True, '%s.%s.%s' % (r[0], r[1].name, r[2].name))
+        if isinstance(f, ast.Name) and f.id == 'len' and 'len' not in leaf.env and s.known is not None and len(call.args) == 1 and not call.keywords and isinstance(call.args[0], ast.Name) \
+                and call.args[0].id == 'self' and leaf.env.get('self', ('self',)) == ('self',) and s._cls is not None:
+            # deep mode: len(self) is self.__len__() of the object's class
+            dm, dc = getattr(s, '_dyn', (s._mod, s._cls))
+            r = m.find_method(dm, dc, '__len__') if dc is not None else None
+            if r:
+                call = ast.copy_location(ast.Call(func=ast.copy_location(ast.Attribute(value=call.args[0], attr='__len__', ctx=ast.Load()), call), args=[], keywords=[]), call)
+                s._len_rewrite = getattr(s, '_len_rewrite', {})
+                tgt = (r[0], r[1], r[2], True, '%s.%s.%s' % (r[0], r[1].name, r[2].name))
+                if s._is_known(tgt):
+                    return None
+                if any(isinstance(x, (ast.Yield, ast.YieldFrom)) for x in ast.walk(r[2])):
+                    return None
+                return tgt + (call,)
         if isinstance(f, ast.Name) and f.id not in leaf.env:
             g = m.resolve_global(s._mod, f.id)
             lk = m.lookup(g)
@@ -1041,6 +1059,9 @@ class Sym:
 
     def inline_call(s, call, leaf, tgt):
         """-> list of (leaf, value term | None, raised?)"""
+        if len(tgt) == 6:
+            call = tgt[5]                      # the call as rewritten by the target search (len(self) -> self.__len__())
+            tgt = tgt[:5]
         mod2, cls2, fn, bound, _ = tgt
         mod2 = getattr(fn, '_home', mod2)          # the module whose names the body refers to (a moved helper keeps its legacy identity in terms)
         params = [a.arg for a in fn.args.posonlyargs + fn.args.args]
@@ -1219,6 +1240,14 @@ class Sym:
                 for q in qs:
                     out += s.stmt(st2, q)
             return out
+        if isinstance(st, ast.Expr) and isinstance(st.value, ast.Call) and isinstance(st.value.func, ast.Name) and leaf.env.get(st.value.func.id, ('?',))[0] == 'boundlocal':
+            # add = items.append ... add(x)  is  items.append(x): a bound method of a local container held in a local
+            _, owner_, meth_ = leaf.env[st.value.func.id]
+            new_call = ast.Call(func=ast.Attribute(value=ast.Name(id=owner_, ctx=ast.Load()), attr=meth_, ctx=ast.Load()), args=st.value.args, keywords=st.value.keywords)
+            new_st = ast.Expr(value=new_call)
+            for x_ in (new_st, new_call, new_call.func, new_call.func.value):
+                ast.copy_location(x_, st)
+            return s.stmt(new_st, leaf)
         if isinstance(st, ast.Expr):
             if isinstance(st.value, ast.Constant):
                 return [leaf]
@@ -1277,6 +1306,10 @@ class Sym:
                 res = s.inline_call(fake, leaf, (r[0], r[1], r[2], True, 'setter'))
                 if res is not None:
                     return [l2 for l2, _, _ in res]
+        if isinstance(st, ast.Assign) and len(st.targets) == 1 and isinstance(st.targets[0], ast.Name) and isinstance(st.value, ast.Attribute) and isinstance(st.value.value, ast.Name) \
+                and st.value.attr in ('append', 'extend', 'update', 'add') and leaf.env.get(st.value.value.id, ('?',))[0] in ('list', 'dict', 'upd') and st.targets[0].id != st.value.value.id:
+            leaf.env[st.targets[0].id] = ('boundlocal', st.value.value.id, st.value.attr)
+            return [leaf]
         if isinstance(st, ast.Assign):
             s.note_calls(st.value, leaf)
             if isinstance(st.value, (ast.Yield, ast.YieldFrom)):
